@@ -680,7 +680,17 @@ func (vc *VC) iadd(a, b string) string {
 // offset 0) so that program terms and specification terms have the same shape.
 func (vc *VC) eidx(off, i string) string {
 	if vc.mode == ModeBV {
-		return vc.iadd(off, i)
+		if !vc.sliceUF {
+			return vc.iadd(off, i)
+		}
+		// unit option `sliceidx uf`: the same device in bv mode (quantified invariants over slice elements in
+		// bit-level units, e.g. word-wise loops, then also get arithmetic-free patterns)
+		if _, ok := vc.decls["gidx"]; !ok {
+			s := vc.idxSort()
+			vc.declare("gidx", "(declare-fun gidx ("+s+" "+s+") "+s+")")
+			vc.axiom("(forall ((a " + s + ") (b " + s + ")) (! (= (gidx a b) (bvadd a b)) :pattern ((gidx a b))))")
+		}
+		return "(gidx " + off + " " + i + ")"
 	}
 	if _, ok := vc.decls["gidx"]; !ok {
 		vc.declare("gidx", "(declare-fun gidx (Int Int) Int)")
